@@ -53,7 +53,11 @@ def make_info(rng, idx, paths, marker=None, malformed=False, agree_starts=False,
                 out += "BRDA:%d,0,%d,%s\n" % (l, n, rng.choice(["-", "0", "1", "4"]))
         out += "end_of_record\n"
     if malformed:
-        out += "SF:broken.c\nDA:x1,2\nend_of_record\n"     # parse_lcov rejects the whole file
+        # parse_lcov rejects the whole file; the offending record is short, or long with multi-byte characters at every
+        # offset around 64 / 96 / 128 bytes (error messages quote it)
+        k = rng.choice([0, 0, 58, 61, 90, 93, 122, 125])
+        bad = "DA:x1,2" if k == 0 else "DA:" + "x" * (k + rng.randrange(0, 4)) + "é日本ü" * 6 + ",2"
+        out += "SF:broken.c\n%s\nend_of_record\n" % bad
     return out.encode()
 
 
